@@ -92,4 +92,27 @@ theorem async_captures_before_chains_every_schedule (c : SpecCfg) (pend : Pend) 
     · simp [(h1 e he).1]
     · exact ha e he
 
+/-- Non-vacuity: `fold` with two block operands hoists both (positions 0 and 1); with one block and one plain operand only
+    the block; `map` with a block operand hoists it, `..` (dot) hoists nothing. -/
+example : (hoist 1 2 ⟨.fold, true, .none, [⟨.block, [pu '#']⟩, ⟨.block, [pu '#']⟩]⟩).1.map (fun d => d.i) = [0, 1] := by decide
+example : (hoist 1 2 ⟨.fold, true, .none, [⟨.expr, [pu '#']⟩, ⟨.block, [pu '#']⟩]⟩).1.map (fun d => d.i) = [1] := by decide
+example : (hoist 0 1 ⟨.map, true, .none, [⟨.block, [pu '#']⟩]⟩).1.length = 1 := by decide
+example : (hoist 0 1 ⟨.dot, true, .none, [⟨.block, [pu '#']⟩]⟩).1.length = 0 := by decide
+
+/-- …and a run in which captures do occur: two branches whose steps 1 and 2 have a block operand; the keys of the emitted
+    events (capture of step k = 2k, chain of step k = 2k+1) are 1 (×4: two chains, start and end) | 2,2,3,3,3,3 | 4,4,5,5,5,5. -/
+def capWorld : World where
+  capture b k _ _ _ := .ok (.atom (100 + b + 10 * k))
+  chain b k _ _ _ := ⟨[], .ok (.succ (.atom (b + 10 * k)))⟩
+  handlerDef := .ok ()
+  handlerCall _ := .ok (.atom 0)
+  joiner _ vs := .ok (mkTuple vs)
+
+def capProg : Input :=
+  let ini : Member := ⟨.initial, false, .none, [⟨.expr, []⟩]⟩
+  let stp : Member := ⟨.map, true, .none, [⟨.block, []⟩]⟩
+  { branches := [⟨none, [ini, stp, stp]⟩, ⟨none, [ini, stp, stp]⟩] }
+
+example : keysOf (loopOf capWorld none capProg ⟨false, false, false⟩).trace = [1, 1, 1, 1, 2, 2, 3, 3, 3, 3, 4, 4, 5, 5, 5, 5] := by decide
+
 end JoinModel.Props.C11
